@@ -523,7 +523,7 @@ def reseal(data):
 
 
 def make_file(pieces, comp_type=0, dict_bytes=b"", hash_type=1, chunk_hash_type=1, uncomp=False,
-              level=3, opt_elems=None, detached=False):
+              level=3, opt_elems=None, detached=False, header_tail=b""):
     """Build a valid file from content pieces without libzck."""
     stored = []
     if dict_bytes:
@@ -545,7 +545,7 @@ def make_file(pieces, comp_type=0, dict_bytes=b"", hash_type=1, chunk_hash_type=
     if detached:
         body = stored[0]
     return build(hash_type=hash_type, flags=flags, comp_type=comp_type, chunk_hash_type=chunk_hash_type,
-                 chunks=chunks, body=body, opt_elems=opt_elems, detached=detached,
+                 chunks=chunks, body=body, opt_elems=opt_elems, detached=detached, header_tail=header_tail,
                  data_digest=(bytes(DIGEST_SIZE[hash_type]) if uncomp else H(hash_type, b"".join(stored))))
 
 
